@@ -391,6 +391,8 @@ class WindowedOptimizer:
         progbar=False,
         **kwargs,
     ):
+        # n.b. the window can't be larger than the contraction itself
+        window_size = min(window_size, len(self.nodes))
         wl = window_size // 2
         wr = window_size - wl
 
